@@ -93,7 +93,7 @@ _worker = None
 def _get_worker():
     global _worker
     if _worker is None or _worker.poll() is not None:
-        env = dict(os.environ, PYTHONHASHSEED="4242", VERIF_DIR=boot.VERIF, VERIF_REPO=boot.REPO, VERIF_NO_REEXEC="1")
+        env = dict(os.environ, PYTHONHASHSEED="4242", VERIF_DIR=boot.VERIF, VERIF_REPO=boot.REPO, VERIF_NO_REEXEC="1", VERIF_NO_MAIN_CLASS="1")
         _worker = subprocess.Popen([sys.executable, "-c", _WORKER_SRC], stdin=subprocess.PIPE, stdout=subprocess.PIPE,
                                    stderr=subprocess.DEVNULL, env=env, text=True)  # fmt: skip
         atexit.register(_stop_worker)
@@ -177,7 +177,14 @@ def body(data) -> Outcome:
     # every third program has its root inputs in a scope ("grid.r0", "grid.r1": dotted names in the run folder)
     import zlib
 
-    scope = "grid." if zlib.crc32(json.dumps(prog, sort_keys=True).encode()) % 3 == 0 and mp.used_roots(prog) else ""
+    # every fourth program returns objects of a class defined in __main__ (a user's script): they reload in another
+    # interpreter only if they were serialised by value
+    crc = zlib.crc32(json.dumps({k: v for k, v in prog.items() if k != "value_class"}, sort_keys=True).encode())
+    if crc % 4 == 1:
+        prog = dict(prog, value_class="main")
+        out.labels.append("results-of-a-class-defined-in-__main__")
+
+    scope = "grid." if crc % 3 == 0 and mp.used_roots(prog) else ""
     if scope:
         out.labels.append("scoped-root-inputs")
     inputs = {scope + k: v for k, v in mp.make_inputs(prog).items()}
@@ -187,9 +194,28 @@ def body(data) -> Outcome:
         from checks.c06_partial import independent_axes, never_named_axis
 
         ind = independent_axes(prog)
-        if ind and not never_named_axis(prog) and zlib.crc32(json.dumps(prog, sort_keys=True).encode()) % 2:
+        if ind and not never_named_axis(prog) and (crc >> 3) % 2:
             continued_axis = ind[0]
             out.labels.append("stored-by-a-partial-run-continued-in-a-process-pool")
+
+    subset_first = None
+    ish_subset = None
+    if continued_axis is None and (crc >> 5) % 2:
+        k = len(prog["funcs"])
+        while k > 0 and not prog["funcs"][k - 1]["mapspec"] and not prog["funcs"][k - 1]["int_axes"]:
+            k -= 1
+        consumed = {q["name"] for fn in prog["funcs"] for q in fn["params"]}
+        tail_outs = [o for fn in prog["funcs"][k:] for o in fn["outs"]]
+        if 0 < k < len(prog["funcs"]) and not (set(tail_outs) & consumed):
+            subset_first = [o for fn in prog["funcs"][:k] for o in fn["outs"]]
+            ish_all = mp.internal_shapes_arg(prog)
+            ish_subset = None if not ish_all else ({a: b for a, b in ish_all.items() if a in subset_first} or None)
+            # the selection must not drop a root input (map would call the others surplus)
+            used_sub = {q["name"] for fn in prog["funcs"][:k] for q in fn["params"]}
+            if set(mp.used_roots(prog)) - used_sub:
+                subset_first = None
+            else:
+                out.labels.append("stored-by-a-subset-run-completed-with-cleanup=False")
 
     def run(inputs=inputs):
         from pipefunc.map._run_info import RunInfo
@@ -198,7 +224,12 @@ def body(data) -> Outcome:
         if scope:
             pipe.update_scope("grid", inputs="*")
         kw = dict(run_folder=folder, internal_shapes=mp.internal_shapes_arg(prog), storage=mp.storage_arg(prog), persist_memory=True)
-        if continued_axis is not None:
+        if subset_first:
+            # the folder is first filled by a run that selects a subset of the outputs and then completed by the full
+            # pipeline with cleanup=False: what the folder records afterwards is the full run
+            pipe.map(inputs, output_names=set(subset_first), parallel=False, **{**kw, "internal_shapes": ish_subset})
+            pipe.map(inputs, cleanup=False, parallel=False, **kw)
+        elif continued_axis is not None:
             # the stored run is produced in two steps: one slice of an independent axis first, the rest by a
             # continuation (cleanup=False) in a process pool -- what is reloaded afterwards must not depend on that
             import multiprocessing
@@ -215,6 +246,7 @@ def body(data) -> Outcome:
         r = faultfs.run_child(run, folder, None, side)
         if not r.get("ok"):
             out.labels.append("n/a:run-refused")  # C01's subject
+            out.labels.append(f"n/a:run-refused:{r.get('exc_type')}@{r.get('where')}")
             return out
         child = r["result"]
         use_xarray = xarray_domain(prog)
@@ -322,8 +354,26 @@ def _load_here(folder, names, use_xarray, roots=None) -> dict:
 
 
 def campaigns(tier):
-    strat = st.fixed_dictionaries({"prog": mp.map_programs(max_funcs=3)})
+    strat = st.fixed_dictionaries({"prog": mp.map_programs(max_funcs=3, max_outputs=3)})
     return [Campaign("reload", body, strat, quick=640, thorough=8000, describe="run in a child, reload here and in a fresh interpreter")]
 
 
-PREDICATES = {}
+def _main_class_case(prog: dict) -> bool:
+    import zlib
+
+    crc = zlib.crc32(json.dumps({k: v for k, v in prog.items() if k != "value_class"}, sort_keys=True).encode())
+    return crc % 4 == 1 or prog.get("value_class") == "main"
+
+
+def _pred_main_class_in_shared_memory_dict(case, failure) -> bool:
+    """C04 finding: results whose class is defined in ``__main__`` are persisted by value; loading them back creates
+    a second class object, and SharedMemoryDictArray.load then sends the loaded values to its Manager process with
+    plain pickle (by reference), which refuses ("not the same object as __main__.X"): such a run cannot be reloaded
+    from a `shared_memory_dict` folder by another process."""
+    prog = case["data"]["prog"]
+    stor = prog["storage"]
+    shared = "shared_memory_dict" in ({stor} if isinstance(stor, str) else set(stor.values()))
+    return shared and _main_class_case(prog)
+
+
+PREDICATES = {"main_class_in_shared_memory_dict": _pred_main_class_in_shared_memory_dict}
